@@ -374,7 +374,7 @@ def check_property(pid, harness_path, tier, seed, only=None):
         row['exhaustive'] = row['verdict'] == 'confirmed'
         ob_rows.append(row)
 
-    if getattr(mod, 'EXTRA', None) == 'formulas' and not only:
+    if getattr(mod, 'EXTRA', None) == 'formulas' and (not only or 'formulas' in only):
         from vf import formulas
         frows, fviol, ferrs = formulas.run(pid)
         ob_rows.extend(frows)
